@@ -4,6 +4,21 @@ print (one member per line, `key: type` with a type that contains no `: `) and o
 only such field types; names containing a line break are not supported (never generated)."""
 
 
+def unescape(s):
+    """value of the double-quoted literal body the generators print (escape_js / ts_key)"""
+    out, i = [], 0
+    while i < len(s):
+        c = s[i]
+        if c == "\\" and i + 1 < len(s):
+            e = s[i + 1]
+            out.append({"n": "\n", "r": "\r", "t": "\t"}.get(e, e))
+            i += 2
+        else:
+            out.append(c)
+            i += 1
+    return "".join(out)
+
+
 def _before_last(s, sep):
     i = s.rfind(sep)
     return None if i < 0 else s[:i]
@@ -29,7 +44,7 @@ def read(kind, mode, text):
                 if k is None:
                     return None
                 if len(k) >= 2 and k[0] == k[-1] and k[0] in "\"'":      # a quoted property name
-                    k = k[1:-1]
+                    k = unescape(k[1:-1])
                 keys.append(k)
             return None
         if mode == "plain":
@@ -42,7 +57,7 @@ def read(kind, mode, text):
                 return []
             if l.startswith(pre) and l.rstrip().endswith(post):
                 body = l.rstrip()[len(pre):-len(post)]
-                return body.split(sep)
+                return [unescape(x) for x in body.split(sep)]
         return None
     except StopIteration:
         return None
